@@ -20,7 +20,7 @@ for log in sorted(glob.glob("/tmp/confirm_round*.log")):
         if l.startswith("RESULT %s/%s " % (src, x)):
             conf = l.strip()
 ev = []
-for log in sorted(glob.glob("/tmp/seed_round*.log")):
+for log in sorted(glob.glob("/tmp/seed_round*.log") + glob.glob("/tmp/seed_brk*.log")):
     for l in open(log):
         if l.startswith("%s %s_%s_out/%s.diff " % (P, pfx, p, x)):
             ev.append(l.strip())
